@@ -4,6 +4,7 @@ import (
 	"bytes"
 	"fmt"
 	"math"
+	"strconv"
 	"strings"
 	"testing"
 	"time"
@@ -30,7 +31,7 @@ import (
 	"verif/harness/kit"
 )
 
-const c40Rule = "fault matrix = application {ICS-20 over IBC v1, ICS-20 over IBC v2, GMP over IBC v2} x callback type {send, ack of a success, ack of an error (refund), timeout (refund), receive} x contract behaviour {ok, consume exactly the limit, error, panic, burn far beyond the limit, limit+1, out of gas swallowed into an error, out of gas swallowed into success} x user gas limit {small, absent, \"0\", = max, max+1, 2^64-1} x relayer/user transaction gas {generous, tight: remaining < commit limit at the callback, then retried at commit-1 / commit / commit+1 and finally with generous gas} x chain maximum {1,000,000 as wired in the callbacks simapp, 300,000 through rebuilt stacks}; every cell is a real packet life cycle driven by signed transactions with a chosen gas limit; the oracles read the contract keeper's gas meter, the transaction's gas meter at the contract's start and at the stack's return, the transaction result and the exact state diff. " +
+const c40Rule = "fault matrix = application {ICS-20 over IBC v1, ICS-20 over IBC v2, GMP over IBC v2} x callback type {send, ack of a success, ack of an error (refund), timeout (refund), receive} x contract behaviour {ok, consume exactly the limit, error, panic, burn far beyond the limit, limit+1, out of gas swallowed into an error, out of gas swallowed into success} x user gas limit {small, absent, \"0\", = max, max+1, 2^64-1} x relayer/user transaction gas {generous, tight: remaining < commit limit at the callback, then retried at commit-1 / commit / commit+1 and finally with generous gas} x chain maximum {1,000,000 as wired in the callbacks simapp, 300,000 (thorough: also 60,000) through rebuilt stacks}; every cell is a real packet life cycle driven by signed transactions with a chosen gas limit; the oracles read the contract keeper's gas meter, the transaction's gas meter at the contract's start and at the stack's return, the transaction result and the exact state diff. " +
 	"Plus boundary-biased (remaining, user, max) triples through GetCallbackData / GetSourceCallbackData / GetDestCallbackData against cap(user,max) and min(remaining, cap). distinct = matrix cell x observed regime (retryable / not, aborted / isolated / persisted)"
 
 // capGas is the commit limit of the statement: the user-requested limit capped at the chain maximum (0 or absent or above max ⇒ max).
@@ -65,9 +66,14 @@ func TestC40(t *testing.T) {
 
 	// matrix
 	maxes := []uint64{DefaultMaxCallbackGas, 300_000}
+	if c.Thorough() {
+		maxes = append(maxes, 60_000)
+	}
 	for wi, max := range maxes {
 		id := 200000 + wi
-		if c.SkipCase(id) {
+		c.SetCase(c.CaseID(id))
+		// replay: a violation names its matrix cell ("…|max=<max>"), or the world
+		if c.OnlyCase != "" && c.OnlyCase != c.CaseID(id) && !strings.HasSuffix(c.OnlyCase, fmt.Sprintf("|max=%d", max)) {
 			continue
 		}
 		r := c.CaseRng(id)
@@ -396,7 +402,7 @@ func (m *c40) runMatrix(first bool) {
 	for i, cl := range cells {
 		id := cl.id(m.max)
 		m.c.SetCase(id)
-		if m.c.OnlyCase != "" && m.c.OnlyCase != id && m.c.OnlyCase != m.c.CaseID(200000) && m.c.OnlyCase != m.c.CaseID(200001) {
+		if m.c.OnlyCase != "" && m.c.OnlyCase != id && !strings.HasPrefix(m.c.OnlyCase, "s") {
 			// replaying one cell still needs the calibration of its (app, type): run the generous ok cell of that group
 			if !(cl.relayer == "generous" && cl.beh == BehOK && strings.HasPrefix(m.c.OnlyCase, cl.app+"|"+cl.typ+"|")) {
 				continue
@@ -450,6 +456,8 @@ type lifecycle struct {
 }
 
 func (m *c40) runCell(cl cell) {
+	// the cell's random choices depend only on (seed, shard, cell)
+	m.r = kit.NewRng(m.c.Seed, "C40", "shard", strconv.Itoa(m.c.Shard), cl.id(m.max))
 	m.tag++
 	cr := &cellRun{cl: cl, tag: fmt.Sprintf("t%d", m.tag), keys: 1 + m.r.Intn(3), amt: int64(10 + m.r.Intn(90))}
 	field, u := m.userVal(cl.user)
